@@ -66,7 +66,7 @@ RULE = ("per operation: exhaustive over strings of length 0..4 over {a,b} x patt
         "overlapping two-byte delimiter -- growing, shrinking, equal sizes, to and from size 0 -- with size() and col[i] for i = 0..max+2 and npos read after each step; third uses, "
         "allocate on a used collection, writes through operator[] inside and outside the range before the re-use, arrays of 17 / 64 / 300 elements; random histories of 1..8 (quick) / "
         "1..25 (thorough) steps; "
-        "non-trivial = at least one argument string is non-empty or a position is out of range")
+        "ALIASING (:als): every statement whose argument points into the object's own buffer (s = s.asCharString() + k, s = s, construct-then-assign, s += s.asCharString() + k, s += s, s.replace(own + k1, own + k2)) and every observer (== / contains / startsWith / endsWith / count with a pointer into itself and with itself, StrStr / StrCmp inside one buffer) with EVERY pointer 0..size() on all texts over {a,b} up to length 3 and on lengths around the string-cache classes, every ordered pair of mutating statements on the same object, random histories; non-trivial = at least one argument string is non-empty or a position is out of range")
 ASSUMPTIONS = ["byte strings without embedded NUL (C strings)", "LP64, size_t = 64 bit", "AtoI/AtoU: the digit string read fits the result type (int / unsigned; every run of at most 9 digits does) -- beyond that AtoI is signed overflow: same contract as atoi",
                "StrNCpy/copyToBuffer/MemCmp are called with buffers at least as large as their contract requires",
                "padding character and the one-byte delimiter of :split / :rsplit are non-NUL bytes; the delimiter of :col :sp is a byte string of any length without NUL; allocate(n) with n < 65536; inside operation sequences replace(char, char) does not write NUL (the single operation :replc does)",
